@@ -41,8 +41,8 @@ fn port_held_by_self(port: u16) -> Option<bool> {
     Some(false)
 }
 
-fn start_net(log: &Arc<Log>, idx: usize, rng: &mut StdRng, idle_ms: u64) -> Network {
-    let (svc, _live) = HarnessService::new(idx, log.clone());
+fn start_net(log: &Arc<Log>, idx: usize, rng: &mut StdRng, idle_ms: u64) -> (Network, Arc<std::sync::atomic::AtomicUsize>) {
+    let (svc, live) = HarnessService::new(idx, log.clone());
     let mut key = [0u8; 32];
     rng.fill(&mut key);
     let mut cfg = anemo::Config::default();
@@ -56,6 +56,7 @@ fn start_net(log: &Arc<Log>, idx: usize, rng: &mut StdRng, idle_ms: u64) -> Netw
         .server_name("verif")
         .private_key(key)
         .start(svc)
+        .map(|n| (n, live))
         .expect("start network")
 }
 
@@ -76,9 +77,9 @@ pub fn run_trial(seed: u64, delay_us: u64, mode: u8, nets: usize) -> i32 {
     let log = Log::new();
     let stop = Arc::new(AtomicBool::new(false));
     let rpcs = Arc::new(AtomicU64::new(0));
-    let networks: Vec<Network> = {
+    let (networks, lives): (Vec<Network>, Vec<Arc<std::sync::atomic::AtomicUsize>>) = {
         let _g = rt.enter();
-        (0..nets).map(|i| start_net(&log, i, &mut rng, idle_ms)).collect()
+        (0..nets).map(|i| start_net(&log, i, &mut rng, idle_ms)).unzip()
     };
     let addrs: Vec<_> = networks.iter().map(|n| (n.peer_id(), n.local_addr())).collect();
     // background dialing between everybody + a black-holed High peer (pending dials)
@@ -119,13 +120,18 @@ pub fn run_trial(seed: u64, delay_us: u64, mode: u8, nets: usize) -> i32 {
                         let _ = n.disconnect(p);
                     }
                     _ => {
-                        let spec = RpcSpec::simple(r.gen_range(0..5_000), 1).with_script(Script {
+                        let mut spec = RpcSpec::simple(r.gen_range(0..5_000), 1).with_script(Script {
                             delay_us: r.gen_range(0..3_000),
                             resp_len: r.gen_range(0..20_000),
                             status: 200,
                             nhdr: 0,
                             seed: 3,
                         });
+                        if mode >= 2 && r.gen_range(0..12) == 0 {
+                            // a handler that is inside a non-yielding section (blocking call, long
+                            // computation) when the shutdown comes
+                            spec.headers.insert("vblock".into(), r.gen_range(5_000..120_000u64).to_string());
+                        }
                         let n2 = n.clone();
                         let log = log.clone();
                         let rpcs = rpcs.clone();
@@ -140,6 +146,35 @@ pub fn run_trial(seed: u64, delay_us: u64, mode: u8, nets: usize) -> i32 {
                 tokio::time::sleep(Duration::from_micros(r.gen_range(0..300))).await;
             }
         });
+    }
+    // in the shutdown modes, half of the trials keep one RPC per network in flight whose handler sits
+    // in a non-yielding section (20-150 ms) - so that one is running when the shutdown comes
+    if mode >= 2 && seed % 2 == 0 {
+        for (i, n) in networks.iter().enumerate() {
+            let (n, addrs, stop, log) = (n.clone(), addrs.clone(), stop.clone(), log.clone());
+            let mut r = StdRng::seed_from_u64(seed ^ 0xb10c ^ (i as u64) << 8);
+            rt.spawn(async move {
+                while !stop.load(Ordering::Relaxed) {
+                    let (p, _) = addrs[r.gen_range(0..addrs.len())];
+                    if p == n.peer_id() {
+                        continue;
+                    }
+                    let mut spec = RpcSpec::simple(100, 1);
+                    spec.headers.insert("vblock".into(), r.gen_range(20_000..150_000u64).to_string());
+                    let _ = crate::world::rpc(&log, &n, i, p, &spec).await;
+                    tokio::time::sleep(Duration::from_millis(1)).await;
+                }
+            });
+        }
+    }
+    // two thirds of the trials start the delay clock when traffic flows (first RPC answered; bounded
+    // wait), so that the tear-down lands among established connections and running handlers; the
+    // rest tears down during the very first handshakes
+    if seed % 3 != 0 {
+        let t = Instant::now();
+        while rpcs.load(Ordering::Relaxed) == 0 && t.elapsed() < Duration::from_secs(3) {
+            std::thread::sleep(Duration::from_micros(200));
+        }
     }
     std::thread::sleep(Duration::from_micros(delay_us));
     let mut code = 0;
@@ -163,11 +198,17 @@ pub fn run_trial(seed: u64, delay_us: u64, mode: u8, nets: usize) -> i32 {
             stop.store(true, Ordering::SeqCst);
             let t0 = Instant::now();
             let res = rt.block_on(async {
-                let futs = networks.iter().map(|n| async move {
+                let log = &log;
+                let futs = networks.iter().zip(lives.iter()).enumerate().map(|(i, (n, live))| async move {
                     let a = n.local_addr();
                     let t = Instant::now();
                     let r = tokio::time::timeout(Duration::from_millis(idle_ms + 5_000), n.shutdown()).await;
                     let took = t.elapsed().as_millis() as u64;
+                    // every clone of the user's service has been dropped when shutdown() returns
+                    let clones_live = live.load(Ordering::SeqCst);
+                    // ... and so has everything those clones produced: no handler of this network is
+                    // still running (neither finished nor dropped) once shutdown() has returned
+                    let handlers_running = log.lock().starts.iter().filter(|s| s.node == i && s.end.is_none()).count();
                     // the address must be re-bindable at once
                     let rebind = std::net::UdpSocket::bind(a);
                     let mut rebind_ok = rebind.is_ok();
@@ -189,15 +230,15 @@ pub fn run_trial(seed: u64, delay_us: u64, mode: u8, nets: usize) -> i32 {
                         }
                     }
                     let late = late_ms.map(|m| m as i64).unwrap_or(-1);
-                    (a, r.is_ok(), rebind_ok, n.is_closed(), n.peers().len(), n.subscribe().is_err(), n.downgrade().upgrade().is_none(), took, late)
+                    (a, r.is_ok(), rebind_ok, n.is_closed(), n.peers().len(), n.subscribe().is_err(), n.downgrade().upgrade().is_none(), took, late, clones_live, handlers_running)
                 });
                 futures::future::join_all(futs).await
             });
-            for (a, returned, rebound, closed, peers, sub_err, weak_dead, took, late) in res {
-                println!("SHUTDOWN addr={a} returned={returned} rebind_ok={rebound} closed={closed} peers={peers} subscribe_err={sub_err} weak_dead={weak_dead} took_ms={took} idle_bound_ms={idle_ms} rebind_late_ms={late}");
+            for (a, returned, rebound, closed, peers, sub_err, weak_dead, took, late, clones_live, handlers_running) in res {
+                println!("SHUTDOWN addr={a} returned={returned} rebind_ok={rebound} closed={closed} peers={peers} subscribe_err={sub_err} weak_dead={weak_dead} took_ms={took} idle_bound_ms={idle_ms} rebind_late_ms={late} service_clones_live={clones_live} handlers_running={handlers_running}");
                 // (the duration is judged in virtual time by the simulated scenarios, not here: a
                 // wall-clock deadline on a loaded machine is not a verdict)
-                if !(returned && rebound && closed && peers == 0 && sub_err && weak_dead) {
+                if !(returned && rebound && closed && peers == 0 && sub_err && weak_dead && clones_live == 0 && handlers_running == 0) {
                     code = 3;
                 }
             }
